@@ -16,12 +16,12 @@ func init() {
 
 // crashHist is a history whose every statement boundary is a crash point.
 type crashHist struct {
-	idx     int
-	name    string // random / template name
-	stmts   []*proto.Stmt
-	flush   []bool // flush after statement i
-	reopen  []bool // clean close + reopen after statement i
-	class   string // never always mixed
+	idx    int
+	name   string // random / template name
+	stmts  []*proto.Stmt
+	flush  []bool // flush after statement i
+	reopen []bool // clean close + reopen after statement i
+	class  string // never always mixed
 }
 
 func intv(i int64) proto.Val { return proto.Int(i) }
